@@ -192,7 +192,7 @@ def run(F, tier, res):
             res.violate('G2', 'fn=%s;after-write' % w,
                         'neither this writer nor the background thread (on its no-write path) notifies after the value is published',
                         where=F.bodies[w]['mir']['span']['at'])
-    res.rule('C20.G2', n_g2, 2, 'every write through the guard is followed by notify_all on all normal paths (or another notifier is guaranteed)')
+    res.rule('C20.G2', n_g2, 1, 'every write through the guard is followed by notify_all on all normal paths (or another notifier is guaranteed)')
 
     # ---- G4: the only condvar wait is wait_while(== Pending) ----
     waits = []
